@@ -89,6 +89,8 @@ func alphabet(h history, rich bool) []gen.Cell {
 		// a healthy pod created by an earlier incarnation of the set (other governing service)
 		add(gen.Cell{Present: true, Phase: v1.PodRunning, Ready: true, Rev: len(h.Revs) - 1, OldSvc: true})
 		add(gen.Cell{Present: true, Phase: v1.PodFailed, Term: true, Rev: len(h.Revs) - 1})
+		// an unowned, matching pod of another set whose name has this set's name as a prefix (<set>-<ord>-0)
+		add(gen.Cell{Present: true, Phase: v1.PodRunning, Ready: true, Rev: len(h.Revs) - 1, Owner: "none", Nested: true})
 		// Ready condition without the Running phase: not Running and Ready
 		add(gen.Cell{Present: true, Phase: v1.PodPending, Ready: true, Rev: len(h.Revs) - 1})
 		if rich {
